@@ -15,9 +15,8 @@ Vocabulary (defined, with their lemmas, in `Lemmas/AutoTA.lean`):
 * `Barred d m` — disk `d` holds a record of the revocation of key material `m`
   (tombstone, or `StateRevoked`/`StateRemoved` marker; a corrupt tombstone file
   bars everything);
-* `HistOK` — the read assumptions of the `_partial` permanence theorems (no
-  "unreadable" tombstone file unless the tree fails closed on it; the state
-  file is not lost while it holds the only record);
+* `HistOK` — the read assumption of the `_partial` permanence theorems (the
+  state file is not lost while it holds the only record of a revocation);
 * `RevocationOf f c` — the fetched set `f` carries the validly self-signed
   REVOKE form of anchor `c`;
 * `Ghost`, `ghostStep`, `runHistG`, `HistNC` — specification-side RFC 5011
@@ -219,10 +218,13 @@ signatures), restarts, crashes between the two writes, write failures and
 tombstone corruption, with a configuration that may still list the key,
 publishes a live trust set without any key of material `m`.
 
-FULL-STRENGTH STATEMENT (false, see `tombstone_permanent_fails_when_unreadable`
-and `tombstone_permanent_fails_when_state_lost`): the same without `HistOK`,
-i.e. also when the tombstone file is unreadable or the state file is lost
-while it holds the only record. -/
+The tombstone file may be unreadable at any refresh (the run then fails
+closed, `unreadable_store_fail_closed`). The only hypothesis left, `HistOK`:
+the state file is not lost (read fault / corruption) at a moment when its
+`StateRevoked` marker is the only record of a revocation.
+
+FULL-STRENGTH STATEMENT (false, see `tombstone_permanent_fails_when_state_lost`):
+the same without `HistOK`. -/
 theorem tombstone_permanent_partial (P : Params) (cfg : List Key) (s : Sys) (evs : List Ev)
     (f : Option Fetch) (fl : Faults) (m : Nat)
     (hb : Barred s.disk m) (hok : HistOK P cfg s (evs ++ [.run f fl none])) :
@@ -821,59 +823,43 @@ def kQ : Key := { mat := 4, sep := true, revoke := false, other := 256, tag := 3
 /-- the root revokes `kA`: `{kA', kB}` signed by `kB` and self-signed by `kA'`. -/
 def revokeA : Fetch := { keys := [kA', kB], signers := [kA', kB] }
 
-/-- `tombstone_permanent` at full strength: no assumption on reads. -/
+/-- `tombstone_permanent` at full strength: no assumption on reads at all. -/
 def TombstonePermanentFull : Prop :=
   ∀ (P : Params) (cfg : List Key) (s : Sys) (evs : List Ev) (f : Option Fetch) (fl : Faults) (m : Nat),
     Barred s.disk m →
     ∀ live, (runHist P cfg s (evs ++ [.run f fl none])).proc = some live → ∀ k ∈ live, k.mat ≠ m
 
-/-- **The unreadable-store clause fails.** `kA` and `kB` are configured; the
-revocation of `kA` is accepted and its tombstone lands; the process restarts;
-at the next refresh the tombstone file exists but cannot be opened
-(`tombRead` fault: not NotExist, not a decode error). `readTombstones`' error
-is treated as an empty map, the still-configured `kA` is merged back and
-published: a key whose revocation was accepted is a trust anchor again. -/
-theorem tombstone_permanent_fails_when_unreadable : ¬ TombstonePermanentFull := by
-  intro h
-  have hb : Barred (runHist {} [kA, kB] {} [.run (some revokeA) {} none]).disk 1 :=
-    Or.inr (Or.inl ⟨[1], by decide, by decide⟩)
-  exact h {} [kA, kB] (runHist {} [kA, kB] {} [.run (some revokeA) {} none]) [.restart] none
-    { tombRead := true } 1 hb [kB, kA] (by decide) kA (by decide) rfl
-
-/-- in the same run the tombstone file is REPLACED by the empty in-memory map:
-the record is gone for good, not only for this refresh. -/
-theorem unreadable_store_is_overwritten :
-    (runHist {} [kA, kB] {} [.run (some revokeA) {} none, .restart,
-      .run (some { keys := [kB], signers := [kB] }) { tombRead := true } none]).disk.tomb = .ok [] := by
-  decide
-
-/-- the unreadable store does not fail closed: a tombstoned key is trusted. -/
-theorem unreadable_store_trusts_tombstoned_key :
-    ¬ (∀ (P : Params) (cfg : List Key) (d : Disk) (live : List Key) (f : Option Fetch) (fl : Faults) (now : Nat)
-        (ms : List Nat), fl.tombRead = true → d.tomb = .ok ms →
-        ∀ k ∈ (autoTA P cfg d live f fl now).live, k.mat ∉ ms) := by
-  intro h
-  exact h {} [kA] { tomb := .ok [1] } [kA] none { tombRead := true } 0 [1] rfl rfl kA (by decide) (by decide)
-
-def tombReadsOK : List Ev → Bool
-  | [] => true
-  | .run _ fl _ :: es => !fl.tombRead && tombReadsOK es
-  | _ :: es => tombReadsOK es
-
-/-- **A second way to lose a revocation** (no tombstone read fault at all): the
-tombstone write fails when `kA`'s revocation is accepted, so the only record is
-the `StateRevoked` marker in the state file; at the next refresh the state
-file cannot be read, `kskCurrent` is re-seeded from the live keys and the
-configuration, and `kA` is trusted again. -/
-theorem tombstone_permanent_fails_when_state_lost :
-    ¬ (∀ (P : Params) (cfg : List Key) (s : Sys) (evs : List Ev) (f : Option Fetch) (fl : Faults) (m : Nat),
-        tombReadsOK (evs ++ [.run f fl none]) = true → Barred s.disk m →
-        ∀ live, (runHist P cfg s (evs ++ [.run f fl none])).proc = some live → ∀ k ∈ live, k.mat ≠ m) := by
+/-- **The one way left to lose a revocation**: the tombstone write fails when
+`kA`'s revocation is accepted, so the only record is the `StateRevoked` marker
+in the state file; at the next refresh the state file cannot be read,
+`kskCurrent` is re-seeded from the live keys and the configuration, and `kA`
+is trusted again (known finding `autota/state-unreadable/revoked-key-live-again`). -/
+theorem tombstone_permanent_fails_when_state_lost : ¬ TombstonePermanentFull := by
   intro h
   have hb : Barred (runHist {} [kA, kB] {} [.run (some revokeA) { tombWrite := true } none]).disk 1 :=
     Or.inr (Or.inr ⟨_, rfl, ⟨kA, .revoked, 0⟩, by decide, rfl, rfl⟩)
   exact h {} [kA, kB] (runHist {} [kA, kB] {} [.run (some revokeA) { tombWrite := true } none]) [] none
-    { stateRead := true } 1 (by decide) hb [kB, kA] (by decide) kA (by decide) rfl
+    { stateRead := true } 1 hb [kB, kA] (by decide) kA (by decide) rfl
+
+/-! The three witnesses that refuted the unreadable-store clause before /repo
+1cde6e3 (`readTombstones`' open error was an empty map) — now rejected: -/
+
+-- revocation of kA tombstoned, restart, tombstone file unopenable: nothing is trusted
+-- (was: `some [kB, kA]`, the revoked and still configured kA live again)
+example : (runHist {} [kA, kB] {} [.run (some revokeA) {} none, .restart,
+    .run none { tombRead := true } none]).proc = some [] := by decide
+-- ... and the store is left alone (was: replaced by the empty map `.ok []`)
+example : (runHist {} [kA, kB] {} [.run (some revokeA) {} none, .restart,
+    .run (some { keys := [kB], signers := [kB] }) { tombRead := true } none]).disk.tomb = .ok [1] := by decide
+-- ... and no tombstoned key is trusted when the store is unreadable (was: kA)
+example : (autoTA {} [kA] { tomb := .ok [1] } [kA] none { tombRead := true } 0).live = [] :=
+  (unreadable_store_fail_closed {} [kA] { tomb := .ok [1] } [kA] none { tombRead := true } 0 rfl).1
+-- tombstone_permanent_partial now covers that history: no assumption on tombstone reads
+example : ∀ k ∈ ([] : List Key), k.mat ≠ 1 :=
+  tombstone_permanent_partial {} [kA, kB]
+    (runHist {} [kA, kB] {} [.run (some revokeA) {} none]) [.restart] none { tombRead := true } 1
+    (Or.inr (Or.inl ⟨[1], by decide, by decide⟩))
+    ⟨trivial, (by intro h; cases h), trivial⟩ [] (by decide)
 
 /-- `new_key_needs_holddown` at full strength: no assumption on key tags. -/
 def NewKeyNeedsHolddownFull : Prop :=
@@ -919,7 +905,7 @@ example : ∀ k ∈ [kB], k.mat ≠ 1 :=
     (runHist {} [kA, kB] {} [.run (some revokeA) {} none]) [.restart]
     (some { keys := [kA, kB], signers := [kA, kB] }) {} 1
     (Or.inr (Or.inl ⟨[1], by decide, by decide⟩))
-    ⟨trivial, ⟨Or.inl rfl, by intro h; cases h⟩, trivial⟩ [kB] (by decide)
+    ⟨trivial, (by intro h; cases h), trivial⟩ [kB] (by decide)
 
 -- ... and across a crash between the two writes of the revoking run (tombstone landed,
 -- state file still lists kA as Valid), then a restart: kA is not published.
@@ -929,7 +915,7 @@ example : ∀ k ∈ [kB], k.mat ≠ 1 :=
                              .run (some revokeA) {} (some 1)]) []
     none {} 1
     (Or.inr (Or.inl ⟨[1], by decide, by decide⟩))
-    ⟨⟨Or.inl rfl, by intro h; cases h⟩, trivial⟩ [kB] (by decide)
+    ⟨(by intro h; cases h), trivial⟩ [kB] (by decide)
 
 -- both_writes_fail_closed: the revoking run with both writes failing
 example : (autoTA {} [kA, kB] {} [kA, kB] (some revokeA) { tombWrite := true, stateWrite := true } 0).live = [] :=
